@@ -40,6 +40,7 @@ func checkC07(c *Ctx, r *Report) {
 	finiteRule(c, r, "C07.NUM")
 	numFmtWriterRule(c, r, "C07.NUMFMT")
 	sepRule(c, r, "C07.SEP", false)
+	c07Line(c, r)
 }
 
 func constStr(v ssa.Value) (string, bool) {
@@ -560,7 +561,7 @@ func rawRule(c *Ctx, r *Report, rule string) {
 			continue
 		}
 		r.fnSeen(name)
-		k := 0
+		k, kb := 0, 0
 		for _, ci := range callsIn(fn) {
 			call, ok := ci.(*ssa.Call)
 			if !ok || !call.Call.IsInvoke() || call.Call.Method.Name() != "Write" || len(call.Call.Args) != 1 {
@@ -568,7 +569,32 @@ func rawRule(c *Ctx, r *Report, rule string) {
 			}
 			cv, ok := call.Call.Args[0].(*ssa.Convert)
 			if !ok {
-				continue // byte literals, repeat of spaces
+				// a slice assembled elsewhere: layout (constant bytes, repeated spaces) needs no obligation; anything
+				// else that entered the slice must be formatter output or, in SDL mode, a name
+				srcs := byteSources(c, call.Call.Args[0])
+				bad, any := "", false
+				for _, sc := range srcs {
+					switch sc.kind {
+					case bsLayout:
+					case bsNumFmt:
+						any = true
+					case bsRawStr:
+						any = true
+						if sc.at == nil || sc.at.Block() == nil || !sdlGuarded(sc.at.Block()) {
+							bad = "the bytes of " + sc.desc + " as they are"
+						}
+					default:
+						any = true
+						bad = "the output of " + sc.desc
+					}
+				}
+				if any {
+					n++
+					kb++
+					r.check(rule, fmt.Sprintf("%s: assembled buffer write #%d holds layout, formatter output or an SDL name only", name, kb), call.Pos(), bad == "",
+						"the buffer can hold "+bad+": not the JSON escaping of the string (strconv quoting is Go syntax: \\x00, \\a, \\v and \\U escapes are not JSON), so some key or string breaks the document")
+				}
+				continue
 			}
 			if _, isC := cv.X.(*ssa.Const); isC {
 				continue
@@ -589,24 +615,29 @@ func rawRule(c *Ctx, r *Report, rule string) {
 			}
 			if !okSrc {
 				// allowed only in SDL mode (names): guarded by sdl == true
-				okSrc = hasGuard(call.Block(), func(g guard) bool {
-					p := spilledParam(g.cond)
-					if p == nil {
-						if fv, ok := g.cond.(*ssa.UnOp); ok {
-							if f, ok := fv.X.(*ssa.FreeVar); ok && f.Name() == "sdl" {
-								return g.val
-							}
-						}
-						return false
-					}
-					return p.Name() == "sdl" && g.val
-				})
+				okSrc = sdlGuarded(call.Block())
 			}
 			r.check(rule, fmt.Sprintf("%s: string write #%d (%s) is escaped or formatter output", name, k, desc), call.Pos(), okSrc,
 				"a non-constant string is written between quotes without passing the escaping writer: a quote, backslash or control character in it breaks the JSON")
 		}
 	}
 	r.floor(rule, "non-constant string writes in the value writer", n, 6)
+}
+
+// sdlGuarded: the block is reached only with the sdl flag (parameter, or the closure's captured copy) set.
+func sdlGuarded(b *ssa.BasicBlock) bool {
+	return hasGuard(b, func(g guard) bool {
+		p := spilledParam(g.cond)
+		if p == nil {
+			if fv, ok := g.cond.(*ssa.UnOp); ok {
+				if f, ok := fv.X.(*ssa.FreeVar); ok && f.Name() == "sdl" {
+					return g.val
+				}
+			}
+			return false
+		}
+		return p.Name() == "sdl" && g.val
+	})
 }
 
 // ---- FINITE -----------------------------------------------------------------------
@@ -661,14 +692,17 @@ func finiteRule(c *Ctx, r *Report, rule string) {
 				k++
 				lo, up := boundsOn(b, src)
 				// or an explicit IsNaN/IsInf test
-				explicit := hasGuard(b, func(g guard) bool {
-					call, ok := g.cond.(*ssa.Call)
-					if !ok || g.val {
-						return false
-					}
-					f := calleeObj(call)
-					return f != nil && f.Pkg() != nil && f.Pkg().Path() == "math" && (f.Name() == "IsInf" || f.Name() == "IsNaN")
-				})
+				mathGuard := func(fname string) bool {
+					return hasGuard(b, func(g guard) bool {
+						call, ok := g.cond.(*ssa.Call)
+						if !ok || g.val {
+							return false
+						}
+						f := calleeObj(call)
+						return f != nil && f.Pkg() != nil && f.Pkg().Path() == "math" && f.Name() == fname
+					})
+				}
+				explicit := mathGuard("IsInf") && mathGuard("IsNaN")
 				r.check(rule, fmt.Sprintf("%s: float result #%d (%s) is finite", name, k, typeStr(src.Type())), mi.Pos(), (lo && up) || explicit,
 					"a float is returned without a range / finiteness test: NaN or ±Inf (or a float64 beyond float32) reaches the JSON writer, which prints NaN / +Inf")
 			}
@@ -1255,6 +1289,12 @@ func numFmtWriterRule(c *Ctx, r *Report, rule string) {
 				if f := calleeObj(call); f != nil && f.Pkg() != nil && f.Pkg().Path() == "strconv" && strings.HasPrefix(f.Name(), "Format") {
 					direct = true
 				}
+			}
+		}
+		if call, ok := cc.Args[0].(*ssa.Call); ok {
+			// strconv.Append*(buf, v, ..) handed to Write as it is
+			if f := calleeObj(call); f != nil && f.Pkg() != nil && f.Pkg().Path() == "strconv" && strings.HasPrefix(f.Name(), "Append") {
+				direct = true
 			}
 		}
 		r.check(rule, fmt.Sprintf("%s: %s values are written as the formatter's output", fnName(fn), numeric), ci.Pos(), direct,
